@@ -215,6 +215,7 @@ type cmdCase struct {
 	Extra   []string   // extra argv before the IDL
 	Env     map[string]string
 	Second  *config // a second -g
+	Prelude [][]string // earlier invocations in the same process (argv each), see drv.runCmdWorld
 }
 
 type plugSpec struct {
@@ -268,6 +269,9 @@ func (c *cmdCase) spec(seed uint64) *simrt.Spec {
 	args = append(args, c.Extra...)
 	args = append(args, c.Prog.Main)
 	sp.Args = args
+	if len(c.Prelude) > 0 {
+		sp.Driver, _ = json.Marshal(map[string]interface{}{"prelude": c.Prelude})
+	}
 	return sp
 }
 
